@@ -375,7 +375,95 @@ def lostWriteRacingInit (pre : List (Op × Obs)) (hist : List Call) : Bool :=
   | none => false
   | some st =>
     let calls := hist.flatMap Call.parts
-    !(pre.any fun x => initializes x.1) &&
+    !(pre.any fun x => initializes x.1 && x.2 != .refused) &&
     !linearizable calls.length st calls && linearizableLossy (racesInit calls) calls.length st calls
+
+/-! ### budgeted search (run-time only)
+
+  `linearizableWith` / `linearizableLossy` explore all real-time-respecting orders when
+  the answer is "no", which is exponential in the number of overlapping calls.  The
+  driver therefore runs the same search with a node budget; `none` = budget exhausted
+  (the case is then reported as undecided, never as failing). -/
+
+def linB (tol : Fail → Bool) (lose : St → Call → Bool) : Nat → Nat → St → List Call → Nat × Option Bool
+  | 0, b, _, pending => (b, some pending.isEmpty)
+  | fuel + 1, b, st, pending =>
+    if pending.isEmpty then (b, some true)
+    else if b = 0 then (0, none)
+    else
+      pending.foldl (fun (acc : Nat × Option Bool) c =>
+        match acc with
+        | (b, some false) =>
+          if b = 0 then (0, none)
+          else if !minimal pending c then (b, some false)
+          else
+            let r := stepSt st 0 (c.op, c.obs)
+            let rest := pending.filter fun p => !p.same c
+            let r1 := if r.2.all tol then linB tol lose fuel (b - 1) r.1 rest else (b - 1, some false)
+            match r1 with
+            | (b1, some false) => if lose st c then linB tol lose fuel b1 st rest else (b1, some false)
+            | other => other
+        | done => done) (b - 1, some false)
+
+def searchBudget : Nat := 60000
+
+inductive ConcVerdict where
+  | ok
+  | undecided
+  | sizeUndecided
+  | sizeResidueRacingDelete
+  | sizeStaleRacingRead
+  | sizeWrongConcurrent
+  | lostWriteRacingDelete
+  | lostWriteRacingInit
+  | readTruncatedRacingWrite
+  | nonLinearizable
+  | prefixFails
+deriving Repr, DecidableEq
+
+/-- a `Values(k)` call that overlaps in time a write to `k` and answered a strict prefix
+    (lowest timestamps) of what is held at this point: `Cache.Values` sizes its copy
+    buffer from `e.count()` and copies later; when the entry grew in between (and another
+    reader's in-place `deduplicate` re-sorted it) `copy` cuts off the highest timestamps -/
+def truncatedRead (all : List Call) (st : St) (c : Call) : Bool :=
+  match c.op, c.obs with
+  | .values k, .vals out =>
+    (all.any fun d =>
+      (match d.op with
+       | .write [(k', _)] => k' == k
+       | _ => false) && decide (d.inv < c.ret) && decide (c.inv < d.ret)) &&
+    (let full := canon (st.snap.get k ++ st.hot.get k)
+     decide (out.length < full.length) && out == full.take out.length)
+  | _, _ => false
+
+/-- the driver's decision on a concurrent block (same searches as `holdsOnConc`,
+    `sizeRacy`, `lostWriteRacingDelete`, `lostWriteRacingInit`, with the node budget) -/
+def judgeConc (pre : List (Op × Obs)) (hist : List Call) : ConcVerdict :=
+  match finalSt {} 0 pre with
+  | none => .prefixFails
+  | some st =>
+    let calls := hist.flatMap Call.parts
+    let n := calls.length
+    match (linB Fail.sizeOnly (fun _ _ => false) n searchBudget st calls).2 with
+    | none => .undecided
+    | some true =>
+      match (linB Fail.isStale (fun _ _ => false) n searchBudget st calls).2 with
+      | some true => .ok
+      | none => .sizeUndecided
+      | some false =>
+        if hasWriteRacingDelete hist then .sizeResidueRacingDelete
+        else if hasReadOverlap hist then .sizeStaleRacingRead
+        else .sizeWrongConcurrent
+    | some false =>
+      match (linB Fail.sizeOnly (fun _ => racesDelete calls) n searchBudget st calls).2 with
+      | some true => .lostWriteRacingDelete
+      | _ =>
+        if !(pre.any fun x => initializes x.1 && x.2 != .refused) &&
+            (linB Fail.sizeOnly (fun _ => racesInit calls) n searchBudget st calls).2 == some true then .lostWriteRacingInit
+        else
+          -- a read that raced a write of its key and answered a truncated list
+          if (linB Fail.sizeOnly (truncatedRead calls) n searchBudget st calls).2 == some true then
+            .readTruncatedRacingWrite
+          else .nonLinearizable
 
 end Influx.Spec.C09
